@@ -143,9 +143,10 @@ def _rows_case(C):
 
             viol = z3.Or(neq_any(both[0], alone[0]), neq_any(both[0], swapped[1]), neq_any(both[1], swapped[0]))
             C.oblige(f"p{C.paths}.{f}.rows:batch==alone==swapped", p.pc, viol, on_model=on_model, inputs=inputs,
+                     key=f"C06|{w.func}|row-independence|{f}", keep=list(np.asarray(A[w.excitation], dtype=object).ravel()) if w.excitation else (),
                      sample=f"{w.func}(field={f}): row 0 of a 2-row call == the 1-row call == row 1 of the swapped call, for all reals on this path")
 
-    paths = explore(run, max_paths=400 if C.tier == "quick" else 4000, on_path=on_path)
+    paths = explore(run, max_paths=400 if C.tier == "quick" else 4000, on_path=on_path, seeds=C.seed_envs(inputs, n=2))
     C.decisions += sum(len(p.decisions) for p in paths)
     if explore.truncated:
         C.note_inconclusive("path-budget", "path budget hit; remaining paths not explored")
@@ -193,11 +194,11 @@ def _vertices_case(C):
                                    "current": [env.get(f"i_{r}", 0.0) for r in range(2)]}}
 
             viol = z3.Or(*[neq_any(np.asarray(both, dtype=object)[k], singles[k][0]) for k in range(2)])
-            C.oblige(f"{tag}.p{C.paths}.rows", p.pc, viol, on_model=on_model,
+            C.oblige(f"{tag}.p{C.paths}.rows", p.pc, viol, on_model=on_model, key=f"C06|current_vertices_field|{tag}", keep=list(cur),
                      inputs=inputs, sample="current_vertices_field: row k of a 2-instance call == single-instance call")
 
         CTX.reset([])
-        paths = explore(run, max_paths=200, on_path=on_path)
+        paths = explore(run, max_paths=200, on_path=on_path, seeds=C.seed_envs(inputs, n=2))
         C.decisions += sum(len(p.decisions) for p in paths)
 
 
